@@ -948,6 +948,25 @@ def check_mut(case, acc, tmp):
             one_hdf5(c, acc, tmp, seed, seq)
         n += 1
     acc.traces += n - 1            # the pipeline adds one per case
+    if second is None:
+        # the verdict on a file does not depend on what was validated before it in the same process: after the
+        # corrupted file the untouched library-written seed must still be reported valid
+        if fmt == 'json':
+            path = os.path.join(tmp, 'after_%016x.biom' % h64(seed))
+            with open(path, 'w', encoding='utf-8') as fh:
+                fh.write(seed)
+        else:
+            path = seed
+        acc.evals += 1
+        verdict, rep = validate(path, acc, fmt)
+        if fmt == 'json':
+            os.unlink(path)
+        if verdict != 'valid':
+            acc.violation('seed-rejected-after:%s:%s' % (fmt, first.cls), 'the library-written %s seed is reported %s '
+                          'when it is validated after a file mutated by %s (report: %s)' % (fmt, verdict, first.name, rep),
+                          dict(case))
+        else:
+            acc.count('clause:seed-valid-after-corrupt:' + fmt)
 
 
 def judge(acc, case, fmt, seq, classes, verdict, rep, what):
@@ -1115,7 +1134,8 @@ def run(run):
     cnt = run.acc.counters
     jo, ho = json_ops(), hdf5_ops()
     js, hs = mutation_seeds(run.tier, run.seed)
-    need = ['clause:seed-valid:json', 'clause:seed-valid:hdf5', 'clause:corrupt-never-valid:json',
+    need = ['clause:seed-valid:json', 'clause:seed-valid:hdf5', 'clause:seed-valid-after-corrupt:json',
+            'clause:seed-valid-after-corrupt:hdf5', 'clause:corrupt-never-valid:json',
             'clause:corrupt-never-valid:hdf5', 'clause:valid-implies-loadable', 'clause3:loaded',
             'pair:json:corrupt', 'pair:hdf5:corrupt', 'pair:json:cancelled', 'pair:hdf5:cancelled']
     need += ['clause:seed-valid:json:' + v for v in ('direct', 'today', 'direct-today', 'write_biom_table')]
